@@ -90,11 +90,14 @@ FunctionLang::execute(
                     DOMServices::s_XMLNamespaceURI,
                     s_attributeName);
 
-            const XalanDOMString&   langVal = theAttribute == 0 ?
-                        s_emptyString : theAttribute->getNodeValue();
-
-            if (langVal.empty() == false)
+            if (theAttribute != 0)
             {
+                // The language of a node is given by the xml:lang attribute
+                // of the nearest ancestor-or-self that has one (an empty
+                // value says that there is no language information), so the
+                // search ends here, whether it matches or not.
+                const XalanDOMString&   langVal = theAttribute->getNodeValue();
+
                 const GetCachedString   theGuard1(executionContext);
                 const GetCachedString   theGuard2(executionContext);
 
@@ -106,10 +109,10 @@ FunctionLang::execute(
                         langVal[valLen] == XalanUnicode::charHyphenMinus)
                     {
                         fMatch = true;
-
-                        break;
                     }
                 }
+
+                break;
             }
         }
 
